@@ -2,6 +2,7 @@ package kfake
 
 import (
 	"net"
+	"slices"
 	"strings"
 
 	"github.com/twmb/franz-go/pkg/kmsg"
@@ -94,7 +95,16 @@ func (a *clusterACLs) allowed(principal, host, resourceName string, resourceType
 	return hasAllow
 }
 
+// anyAllowed reports whether the principal may perform op on at least one
+// resource of the given type. It mirrors Kafka's authorizeByResourceType: an
+// ALLOW pattern counts only if no matching DENY pattern dominates it (a DENY
+// on the wildcard, on the same literal, or on a prefix covering the pattern).
 func (a *clusterACLs) anyAllowed(principal, host string, resourceType kmsg.ACLResourceType, op kmsg.ACLOperation) bool {
+	var (
+		denyLiterals, denyPrefixes   []string
+		allowLiterals, allowPrefixes []string
+		allowWildcard                bool
+	)
 	for i := range a.acls {
 		acl := &a.acls[i]
 		if acl.resourceType != resourceType ||
@@ -103,7 +113,46 @@ func (a *clusterACLs) anyAllowed(principal, host string, resourceType kmsg.ACLRe
 			!acl.matchesOp(op) {
 			continue
 		}
-		if acl.permission == kmsg.ACLPermissionTypeAllow {
+		deny := acl.permission == kmsg.ACLPermissionTypeDeny
+		switch acl.pattern {
+		case kmsg.ACLResourcePatternTypeLiteral:
+			switch {
+			case acl.resourceName == "*" && deny:
+				return false
+			case acl.resourceName == "*":
+				allowWildcard = true
+			case deny:
+				denyLiterals = append(denyLiterals, acl.resourceName)
+			default:
+				allowLiterals = append(allowLiterals, acl.resourceName)
+			}
+		case kmsg.ACLResourcePatternTypePrefixed:
+			if deny {
+				denyPrefixes = append(denyPrefixes, acl.resourceName)
+			} else {
+				allowPrefixes = append(allowPrefixes, acl.resourceName)
+			}
+		default: // only literal and prefixed patterns are stored
+		}
+	}
+	if allowWildcard {
+		return true
+	}
+	dominated := func(name string) bool {
+		for _, p := range denyPrefixes {
+			if strings.HasPrefix(name, p) {
+				return true
+			}
+		}
+		return false
+	}
+	for _, name := range allowPrefixes {
+		if !dominated(name) {
+			return true
+		}
+	}
+	for _, name := range allowLiterals {
+		if !slices.Contains(denyLiterals, name) && !dominated(name) {
 			return true
 		}
 	}
